@@ -184,6 +184,8 @@ var vC10Queries = []string{
 	"ts=bytes",
 	"si=nosuchtype",
 	"f=nomatch",
+	"f=work&ts=%5B", // rejected (malformed tagshow expression) after the copy was already filtered
+	"h=leaf&th=%5B",
 }
 
 // vRespWriter is the http.ResponseWriter of a request (transport is outside the claim).
